@@ -380,6 +380,19 @@ class Writer(BaseValidator):
             actual_row_to_write = row_to_write
         if self.location.line >= self._header:
             self.validate_row(actual_row_to_write)
+        elif is_fixed:
+            # A header row is not validated but has to fit into the fixed layout nevertheless.
+            fits = len(actual_row_to_write) == len(self._field_names_and_lengths)
+            if fits:
+                for field_index, item in enumerate(actual_row_to_write):
+                    _, fixed_field_length = self._field_names_and_lengths[field_index]
+                    fits = fits and isinstance(item, str) and (len(item) == fixed_field_length)
+            if not fits:
+                raise errors.DataError(
+                    "header row must contain %d strings no longer than the respective field: %s"
+                    % (len(self._field_names_and_lengths), actual_row_to_write),
+                    self.location,
+                )
         self._delegated_writer.write_row(actual_row_to_write)
 
     def write_rows(self, rows_to_write):
